@@ -141,6 +141,9 @@ def run(tier, seed):
     n_main = mainrun.check_main(ck, tier, 'all')
     # the WHOLE command end to end on real trees vs Pel.runMain (PelModel/Top.lean), and the command-level properties on the real runs
     toprun.check_top(ck, tier, 'effects')
+    # the same inside a BMC (no -p; -A = the archive below the log directory): Pel.runMainBmc, C11.bmc_*
+    import bmcrun
+    bmcrun.check_bmc(ck, tier)
     return ck.finish(RULE, TRUSTED, ASSUME, extra={'main_cases': n_main, 'main_sweep': 'all 8192 subsets of the thirteen mode options (x both '
                                                    'return values of parseAndPrintPELFile when -f is given)' if thorough else
                                                    '1024 sampled subsets of the thirteen mode options'})
